@@ -1922,6 +1922,13 @@ class PureInterp:
 
     def _isinstance(self, v, t):
         names = [t] if not isinstance(t, (tuple, list)) else list(t)
+        if isinstance(v, EnumVal):
+            # a member of an Enum class of the package is an instance of that class (and of enum.Enum)
+            for x in names:
+                want = f"{x.module.name}.{x.name}" if isinstance(x, ClassInfo) else x.name if isinstance(x, FuncRef) else str(x)
+                if want == v.cls or want in ("enum.Enum", "builtins.object"):
+                    return True
+            return False
         if isinstance(v, Obj):
             from .paths import Hierarchy
             hier = Hierarchy(self.index)
